@@ -510,6 +510,9 @@ package decorator
 
 //@ func (f *fileDecorator) decorateSelectorExpr
 //@ requires maps: f.dmapsInv()
+//@ requires not_yet_decorated: !has(f.Dst.Nodes, n)
+//@ assumes operand_present: n.X != nil && ref(n.X) != 0
+//@ assumes children_reached_through_parent_only: !has(f.Dst.Nodes, n.X) && !has(f.Dst.Nodes, n.Sel)
 //@ requires objects: f.objMapsInv()
 //@ ensures objects: f.objMapsInv()
 //@ ensures objects_grow: forall k *ast.Object :: {has(f.Dst.Objects, k)} old(has(f.Dst.Objects, k)) ==> has(f.Dst.Objects, k) && f.Dst.Objects[k] == old(f.Dst.Objects[k])
@@ -520,6 +523,9 @@ package decorator
 //@ ensures maps: f.dmapsInv()
 //@ ensures error_result: err != nil ==> result == nil
 //@ ensures collapsed_type: result != nil ==> typeof(result) == type(*dst.Ident)
+//@ ensures collapsed_name: err == nil && result != nil ==> cast(result, type(*dst.Ident)).Name == n.Sel.Name && cast(result, type(*dst.Ident)).Path != ""
+//@ ensures collapsed_object: err == nil && result != nil ==> (n.Sel.Obj == nil ? cast(result, type(*dst.Ident)).Obj == nil : has(f.Dst.Objects, n.Sel.Obj) && cast(result, type(*dst.Ident)).Obj == f.Dst.Objects[n.Sel.Obj])
+//@ ensures collapsed_children: err == nil && result != nil ==> has(f.Dst.Nodes, n.X) && f.Dst.Nodes[n.X] == result && has(f.Dst.Nodes, n.Sel) && f.Dst.Nodes[n.Sel] == result
 //@ ensures collapsed: err == nil && result != nil ==> has(f.Dst.Nodes, n) && f.Dst.Nodes[n] == result && ref(result) != 0 && has(f.Ast.Nodes, result) && f.Ast.Nodes[result] == n && !wasAllocated(ref(result))
 //@ ensures dst_map_grows: forall k ast.Node :: {has(f.Dst.Nodes, k)} old(has(f.Dst.Nodes, k)) ==> has(f.Dst.Nodes, k) && f.Dst.Nodes[k] == old(f.Dst.Nodes[k])
 //@ ensures ast_map_grows: forall k dst.Node :: {has(f.Ast.Nodes, k)} old(has(f.Ast.Nodes, k)) ==> has(f.Ast.Nodes, k) && f.Ast.Nodes[k] == old(f.Ast.Nodes[k])
@@ -568,3 +574,10 @@ package decorator
 //@   (forall d *dst.Object :: {has(f.Ast.Objects, d)} has(f.Ast.Objects, d) ==> allocated(d)) &&
 //@   (forall d *dst.Scope :: {has(f.Ast.Scopes, d)} has(f.Ast.Scopes, d) ==> allocated(d))
 //@ }
+
+// mergeDecorations builds its result in a slice of its own: nothing that existed before the call is written.
+//@ func mergeDecorations
+//@ modifies newobjects
+//@ ensures result_is_new: cap(result) == 0 || !wasAllocated(arr(result))
+//@ loop 1 invariant result_is_new: cap(out) == 0 || (!wasAllocated(arr(out)) && arr(out) >= entry(allocCounter()) && allocated(arr(out)))
+//@ loop 1 invariant old_rows: rowsKeptSinceLoopEntry()
